@@ -39,6 +39,7 @@ type Report struct {
 	Analysed map[string]int    // what was analysed (functions, instructions, ...)
 	Rules    map[string]string // rule name -> statement
 	Assume   []string
+	Thorough map[string]any // extra coverage recorded by the thorough tier
 	start    time.Time
 }
 
@@ -269,6 +270,7 @@ func (r *Report) Finish(verif string, level string, floors floorsFile, known *Kn
 		"analysed":            r.Analysed,
 		"known_findings_matched": len(knownHit),
 		"canaries":            map[string]any{"expected": len(canaryExpect), "failed": len(canaryFail), "skipped": canarySkipped != ""},
+		"thorough":            r.Thorough,
 		"exhaustive":          true,
 	}
 	assume := append([]string{
